@@ -23,11 +23,12 @@ from urllib3.exceptions import HTTPError
 from urllib3.util.retry import Retry
 
 (B_CL, B_CL_CLOSE, B_CHUNKED, B_CLOSE_DELIM, B_204_STRAY, B_HEAD_STRAY, B_304_STRAY, B_CL_STRAY, B_EARLY_EOF, B_GARBAGE,
- B_CHUNKED_BADSIZE, B_CHUNKED_LIE, B_CL_NESTED) = range(13)
+ B_CHUNKED_BADSIZE, B_CHUNKED_LIE, B_CL_NESTED, B_CHUNKED_TRAILER) = range(14)
 BNAMES = ["CL keep-alive", "CL + Connection: close", "chunked", "close-delimited", "204 + stray bytes", "HEAD reply + stray bytes",
           "304 + stray bytes", "complete CL body + stray bytes", "early EOF inside the body", "garbage status line",
           "chunked with a malformed size line", "announces chunked, sends a malformed size line, rest (a well-formed message) follows later",
-          "Content-Length body whose tail is itself a well-formed HTTP response"]
+          "Content-Length body whose tail is itself a well-formed HTTP response",
+          "chunked with a trailer section whose later lines look like a response head (slow peer: they arrive when asked for, or after the next request)"]
 D_READ, D_READK_RELEASE, D_RELEASE, D_DRAIN, D_CLOSE, D_STREAM, D_STREAM1_RELEASE, D_PRELOAD = range(8)
 DNAMES = ["read()", "read(k)+release_conn()", "release_conn() unread", "drain_conn()", "close()", "stream() to the end",
           "one stream piece then release_conn()", "preload_content=True"]
@@ -66,6 +67,10 @@ def script(i, b):
         return [b"\x00\x01 garbage\r\n\r\n", b""], None, b"", False
     if b == B_CHUNKED_BADSIZE:
         return [b"HTTP/1.1 200 OK\r\nTransfer-Encoding: chunked\r\n\r\n4\r\n" + body[:4] + b"\r\nZZ\r\n" + body[4:] + b"\r\n0\r\n\r\n"], 200, body, False
+    if b == B_CHUNKED_TRAILER:
+        # one message: chunks, last-chunk, three trailer lines, empty line.  Everything belongs to request i.
+        return [b"HTTP/1.1 200 OK\r\nTransfer-Encoding: chunked\r\n\r\nA\r\n" + body + b"\r\n0\r\nX-Trailer: 1\r\n",
+                b"HTTP/1.1 206 Stale\r\nContent-Length: 0\r\n\r\n"], 200, body, True
     fake = b"HTTP/1.1 200 OK\r\nContent-Length: 10\r\n\r\n" + body       # everything here still belongs to request i
     if b == B_CHUNKED_LIE:
         return [b"HTTP/1.1 200 OK\r\nTransfer-Encoding: chunked\r\n\r\nZZ\r\n", fake], 200, b"", True
@@ -109,6 +114,8 @@ class TagPeer(N.BaseHandler):
             if self.lates.get(rid) and len(segs) >= 2 and clean:
                 st["queue"].append(segs[0])
                 st["held"] = list(segs[1:])
+                # a slow peer rather than a stalling one: the held bytes also arrive when the client waits for them
+                st["lazy"] = self.behaviours.get(rid, B_CL) == B_CHUNKED_TRAILER
             else:
                 st["queue"].extend(segs)
 
@@ -122,6 +129,10 @@ class TagPeer(N.BaseHandler):
             if seg == b"":
                 st["eof"] = True
             return seg
+        if st.get("lazy") and st["held"]:
+            st["queue"].extend(st["held"])
+            st["held"] = None
+            return st["queue"].pop(0)
         return b""     # a keep-alive peer would block here; nothing in the harness reads past a complete message
 
     def readable(self, sock):
@@ -237,7 +248,7 @@ def _opts(bs, ds, ks, late_ok):
                 continue
             for k in (ks if d == D_READK_RELEASE else ks[:1]):
                 lates = [False]
-                if late_ok and ((d in (1, 2, 6) and b in (0, 2, 12)) or (b == 11 and d in (0, 1, 3, 5))):
+                if late_ok and ((d in (1, 2, 6) and b in (0, 2, 12)) or (b == 11 and d in (0, 1, 3, 5)) or b == B_CHUNKED_TRAILER):
                     lates = [False, True]
                 # what happens to the response OBJECT afterwards: kept alive (http.client then refuses to reuse the connection
                 # while it is unread), dropped (garbage-collected), or closed
@@ -279,7 +290,7 @@ def JOBS(tier):
     quick = tier == "quick"
     t = 170 if quick else 900
     jobs = []
-    allb = list(range(13))
+    allb = list(range(14))
     alld = list(range(8))
 
     def add(part):
@@ -299,7 +310,7 @@ def JOBS(tier):
 
 
 EVIDENCE = {
-    "bounds": {"quick": "histories of 2 requests on a pool of maxsize 1: first request = every (server behaviour x caller disposal) pair of 13 "
+    "bounds": {"quick": "histories of 2 requests on a pool of maxsize 1: first request = every (server behaviour x caller disposal) pair of 14 "
                         "behaviours x 8 disposals, remainder in flight or delivered; second request = 6 behaviours x {read, read(k)+release, "
                         "preload, stream} x retries on/off; every history is one solver model of a single index variable",
                "thorough": "maxsize <= 2, every behaviour and disposal for both requests, k in {0,3,10,11}; histories of 3 requests for 60 first-two "
